@@ -1,0 +1,21 @@
+//go:build verif
+
+package override
+
+import "github.com/compose-spec/compose-go/v2/tree"
+
+// Thin exported wrapper for property C11 (implicit defaults ≡ explicit ones): the key under which EnforceUnicity
+// recognises one entry of `services.<name>.<list>` across merged files.  Compiled only with the `verif` build tag.
+
+// VerifC11IndexKey applies the indexer registered in `unique` for `services.a.<list>` to one entry.
+// found=false: no indexer is registered for that list.
+func VerifC11IndexKey(list string, entry any) (key string, found bool, err error) {
+	p := tree.NewPath("services", "a", list)
+	for pattern, indexer := range unique {
+		if p.Matches(pattern) {
+			key, err = indexer(entry, p.Next("[0]"))
+			return key, true, err
+		}
+	}
+	return "", false, nil
+}
